@@ -12,8 +12,8 @@ files=$(ls $src/*_test.go 2>/dev/null)
 for f in $(cd $2 && git status --short | grep '_test.go' | awk '{print $2}'); do mkdir -p $wt/$(dirname $f); cp $2/$f $wt/$f; done
 pkgs=$(cd $2 && git status --short | grep '_test.go' | awk '{print $2}' | xargs -n1 dirname | sort -u | sed 's|^|./|' | tr '\n' ' ')
 echo "demo packages: $pkgs"
-( cd $wt && go test -vet=off -count=1 -run 'Seeded|SeededDemo' $pkgs 2>&1 | grep -E "^(--- FAIL|FAIL|ok)" | tr '\n' ' '; echo " <= WITHOUT patch (expect ok)" )
+( cd $wt && unshare -n -- sh -c 'ip link set lo up; exec "$@"' sh go test -vet=off -count=1 -run 'Seeded|SeededDemo' $pkgs 2>&1 | grep -E "^(--- FAIL|FAIL|ok)" | tr '\n' ' '; echo " <= WITHOUT patch (expect ok)" )
 git -C $wt apply $src/patch.diff || { echo PATCH-DOES-NOT-APPLY; exit 2; }
-( cd $wt && go test -vet=off -count=1 -run 'Seeded|SeededDemo' $pkgs 2>&1 | grep -E "^(--- FAIL|FAIL|ok)" | head -4 | tr '\n' ' '; echo " <= WITH patch (expect FAIL)" )
+( cd $wt && unshare -n -- sh -c 'ip link set lo up; exec "$@"' sh go test -vet=off -count=1 -run 'Seeded|SeededDemo' $pkgs 2>&1 | grep -E "^(--- FAIL|FAIL|ok)" | head -4 | tr '\n' ' '; echo " <= WITH patch (expect FAIL)" )
 tp=$(git -C $wt diff --name-only | xargs -n1 dirname | sort -u | sed 's|^|./|' | tr '\n' ' ')
-( cd $wt && go build ./... && go test -vet=off -count=1 -skip 'Seeded' $tp ./internal/broker/ 2>&1 | grep -E "^(--- FAIL|FAIL|ok)" | grep -v -E "TestJoin|TestNewClient|TestStatsd" | tr '\n' ' '; echo " <= existing tests WITH patch" )
+( cd $wt && go build ./... && unshare -n -- sh -c 'ip link set lo up; exec "$@"' sh go test -vet=off -count=1 -skip 'Seeded' $tp ./internal/broker/ 2>&1 | grep -E "^(--- FAIL|FAIL|ok)" | grep -v -E "TestJoin|TestNewClient|TestStatsd" | tr '\n' ' '; echo " <= existing tests WITH patch" )
